@@ -19,6 +19,7 @@ fn mk(group: bool, id: u32) -> PollingConsumer {
 
 macro_rules! partition_with_offset_dirs {
     ($p:ident, $cur:ident) => {
+        mfs::strict(true); // no I/O error is injected in these harnesses
         typed_arc!(__cfg: crate::configs::system::SystemConfig = system_config());
         let __st = storage(&__cfg);
         let __c = counters();
@@ -63,10 +64,37 @@ fn overwrite(group: bool) {
     kani::cover!(o != o2, "value changed");
     core::mem::forget(p);
 }
-harness_sync! { #[kani::unwind(10)] fn c07_overwrite_consumer_t() { overwrite(false) } }
-harness_sync! { #[kani::unwind(10)] fn c07_overwrite_group_t() { overwrite(true) } }
-harness_sync! { #[kani::unwind(10)] fn c07_get_after_store_consumer() { get_after_store(false) } }
-harness_sync! { #[kani::unwind(10)] fn c07_get_after_store_group() { get_after_store(true) } }
+harness_sync! { #[kani::unwind(5)] fn c07_overwrite_consumer_t() { overwrite(false) } }
+
+// overwrite, with the disk write summarised (cheap enough for the quick tier): a second store for the
+// same identity replaces the first - whether it is higher, equal or LOWER - in memory and in what is
+// handed to the storage layer.
+fn overwrite_summarised(group: bool) {
+    partition_with_offset_dirs!(p, cur);
+    let a = mk(group, 5);
+    let o: u64 = kani::any();
+    let o2: u64 = kani::any();
+    kani::assume(o <= cur && o2 <= cur);
+    p.store_consumer_offset(a, o).unwrap();
+    p.store_consumer_offset(a, o2).unwrap();
+    assert!(p.get_consumer_offset(a).unwrap() == Some(o2), "get must return the most recently stored offset");
+    unsafe {
+        assert!(crate::verif::su::LAST_SAVED_OFFSET == Some(o2), "the most recently stored offset was not written to storage");
+        assert!(crate::verif::su::SAVE_CALLS == 2);
+    }
+    kani::cover!(o2 < o, "rewind");
+    kani::cover!(o2 > o, "advance");
+    core::mem::forget(p);
+}
+harness_sync! {
+  #[kani::stub(crate::verif::sync::streaming::partitions::storage::FilePartitionStorage::save_consumer_offset, crate::verif::su::summary_save_consumer_offset)]
+  #[kani::unwind(5)] fn c07_overwrite_replaces_consumer() { overwrite_summarised(false) } }
+harness_sync! {
+  #[kani::stub(crate::verif::sync::streaming::partitions::storage::FilePartitionStorage::save_consumer_offset, crate::verif::su::summary_save_consumer_offset)]
+  #[kani::unwind(5)] fn c07_overwrite_replaces_group() { overwrite_summarised(true) } }
+harness_sync! { #[kani::unwind(5)] fn c07_overwrite_group_t() { overwrite(true) } }
+harness_sync! { #[kani::unwind(5)] fn c07_get_after_store_consumer() { get_after_store(false) } }
+harness_sync! { #[kani::unwind(5)] fn c07_get_after_store_group() { get_after_store(true) } }
 
 // H2: isolation between identities, including a consumer and a group with the same numeric id
 fn isolation(ga: bool, ia: u32, gb: bool, ib: u32) {
@@ -100,12 +128,12 @@ fn delete_one(ga: bool, ia: u32, gb: bool, ib: u32) {
     kani::cover!(o1 != o2, "different offsets");
     core::mem::forget(p);
 }
-harness_sync! { #[kani::unwind(10)] fn c07_delete_group_keeps_consumer_same_id_t() { delete_one(false, 5, true, 5) } }
-harness_sync! { #[kani::unwind(10)] fn c07_delete_consumer_keeps_consumer_t() { delete_one(false, 5, false, 6) } }
-harness_sync! { #[kani::unwind(10)] fn c07_isolation_consumer_vs_group_same_id() { isolation(false, 5, true, 5) } }
-harness_sync! { #[kani::unwind(10)] fn c07_isolation_group_vs_consumer_same_id_t() { isolation(true, 5, false, 5) } }
-harness_sync! { #[kani::unwind(10)] fn c07_isolation_two_consumers_t() { isolation(false, 5, false, 6) } }
-harness_sync! { #[kani::unwind(10)] fn c07_isolation_two_groups_t() { isolation(true, 5, true, 6) } }
+harness_sync! { #[kani::unwind(5)] fn c07_delete_group_keeps_consumer_same_id_t() { delete_one(false, 5, true, 5) } }
+harness_sync! { #[kani::unwind(5)] fn c07_delete_consumer_keeps_consumer_t() { delete_one(false, 5, false, 6) } }
+harness_sync! { #[kani::unwind(5)] fn c07_isolation_consumer_vs_group_same_id() { isolation(false, 5, true, 5) } }
+harness_sync! { #[kani::unwind(5)] fn c07_isolation_group_vs_consumer_same_id_t() { isolation(true, 5, false, 5) } }
+harness_sync! { #[kani::unwind(5)] fn c07_isolation_two_consumers_t() { isolation(false, 5, false, 6) } }
+harness_sync! { #[kani::unwind(5)] fn c07_isolation_two_groups_t() { isolation(true, 5, true, 6) } }
 
 // H4: durability: what was stored is what a fresh partition object loads from the same files;
 // a deleted offset is not loaded again
@@ -137,5 +165,5 @@ fn survives_restart(ga: bool, ia: u32, gb: bool, ib: u32) {
     core::mem::forget(q);
     core::mem::forget(st2);
 }
-harness_sync! { #[kani::unwind(10)] fn c07_survives_restart_consumer_and_group_t() { survives_restart(false, 5, true, 5) } }
-harness_sync! { #[kani::unwind(10)] fn c07_survives_restart_two_groups_t() { survives_restart(true, 5, true, 6) } }
+harness_sync! { #[kani::unwind(5)] fn c07_survives_restart_consumer_and_group_t() { survives_restart(false, 5, true, 5) } }
+harness_sync! { #[kani::unwind(5)] fn c07_survives_restart_two_groups_t() { survives_restart(true, 5, true, 6) } }
